@@ -39,6 +39,14 @@ func (c *ConstantOfShape) Init(n *onnx.NodeProto) error {
 				return err
 			}
 
+			// The backing of a scalar is not a slice; take the one-element vector instead.
+			if len(t.Shape()) == 0 {
+				t, err = ops.AddExtraDimsToTensor(t, 1)
+				if err != nil {
+					return err
+				}
+			}
+
 			c.value = tensor.New(tensor.WithBacking(t.Data()))
 			if c.value.Len() != 1 {
 				return ops.ErrInvalidTensor("expected tensor to have one element", c)
